@@ -214,4 +214,588 @@ theorem cn_decodeWalk_not_walk (a : Acc) (tbl : Option Tbl) : ∀ (s : List Char
         · simp [h1']
         · simp [h1']
 
+/-! ## `set_vt` and the check -/
+
+theorem cn_nucValues_cases (s : List Char) :
+    (∃ vs, nucValues s = .ok vs) ∨ nucValues s = .error .valueError := by
+  by_cases h : ∀ c ∈ s, (nucIdx c).isSome = true
+  · exact Or.inl ⟨_, nucValues_ok_cv s h⟩
+  · exact Or.inr (nucValues_error s h)
+
+theorem cn_setVt_error {s : List Char} {n : Nat} {e : PyErr} (h : setVt s n = .error e) :
+    e = .valueError := by
+  unfold setVt at h
+  rcases cn_nucValues_cases s with ⟨vs, hv⟩ | hv
+  · rw [hv] at h; cases h
+  · rw [hv] at h; cases h; rfl
+
+theorem cn_setVt_length {s c : List Char} {n : Nat} (hn : 1 ≤ n) (h : setVt s n = .ok c) :
+    c.length = n := by
+  unfold setVt at h
+  rcases cn_nucValues_cases s with ⟨vs, hv⟩ | hv
+  · rw [hv] at h
+    simp only [Except.map] at h
+    cases h
+    have hlt : ascentSum vs 0 % 4 ^ (n - 1) < 4 ^ (n - 1) := Nat.mod_lt _ (Nat.pow_pos (by omega))
+    have := (C16_number_dna _ _ hlt).1
+    simp only [List.length_cons, this]
+    omega
+  · rw [hv] at h; cases h
+
+theorem cn_setVt_ok_of_isDna {s : List Char} (n : Nat) (hs : ∀ c ∈ s, (nucIdx c).isSome = true) :
+    ∃ c, setVt s n = .ok c := by
+  unfold setVt
+  rw [nucValues_ok_cv s hs]
+  exact ⟨_, rfl⟩
+
+theorem cn_vtMatches_cases (s : List Char) (chk : Option (List Char)) :
+    vtMatches s chk = .ok true ∨ vtMatches s chk = .ok false ∨
+      vtMatches s chk = .error .valueError := by
+  cases chk with
+  | none => exact Or.inl rfl
+  | some c =>
+    have hvm : vtMatches s (some c) = (setVt s c.length).map (· == c) := rfl
+    rw [hvm]
+    cases h : setVt s c.length with
+    | error e =>
+      have := cn_setVt_error h
+      subst this
+      exact Or.inr (Or.inr rfl)
+    | ok c' =>
+      show Except.ok (c' == c) = _ ∨ Except.ok (c' == c) = _ ∨ Except.ok (c' == c) = _
+      cases (c' == c) with
+      | true => exact Or.inl rfl
+      | false => exact Or.inr (Or.inl rfl)
+
+/-! ## normal-mode `decode`, characterised -/
+
+theorem cn_decode_normal_ok (a : Acc) (tbl : Option Tbl) (v : Int) (s : List Char) (L : Nat)
+    (chk : Option (List Char)) (hw : isWalk a v s = true) (hc : vtMatches s chk = .ok true) :
+    decode a tbl v s L false chk = .ok (numberToBitInt (walkValueD a tbl v s) L) := by
+  obtain ⟨saved, hs, hcan, hval⟩ := cn_decodeWalk_walk a tbl s v hw
+  unfold decode
+  simp only [hc, hs, bind, Except.bind]
+  simp only [Bool.not_true, Bool.false_eq_true, if_false]
+  rw [numberToBitStr_eq _ hcan, hval]
+
+theorem cn_decode_normal_err (a : Acc) (tbl : Option Tbl) (v : Int) (s : List Char) (L : Nat)
+    (chk : Option (List Char)) (h : ¬ (isWalk a v s = true ∧ vtMatches s chk = .ok true)) :
+    decode a tbl v s L false chk = .error .valueError := by
+  unfold decode
+  rcases cn_vtMatches_cases s chk with hc | hc | hc
+  · have hw : isWalk a v s = false := by
+      cases hw : isWalk a v s with
+      | true => exact absurd ⟨hw, hc⟩ h
+      | false => rfl
+    simp only [hc, cn_decodeWalk_not_walk a tbl s v hw, bind, Except.bind]
+    simp
+  · simp only [hc, bind, Except.bind]
+    simp
+  · simp only [hc, bind, Except.bind]
+
+theorem cn_numberToBitInt_length (n L : Nat) : (numberToBitInt n L).length = L :=
+  fitBits_length _ _
+
+/-! ## what `encodeNat` returns -/
+
+theorem cn_map_ok {α β} {x : R α} {f : α → β} {y : β} (h : x.map f = .ok y) :
+    ∃ x', x = .ok x' ∧ f x' = y := by
+  cases x with
+  | error e => cases h
+  | ok x' => exact ⟨x', rfl, by cases h; rfl⟩
+
+theorem cn_tightD_nil (a : Acc) (tbl : Option Tbl) (v : Int) : TightD a tbl v [] := by
+  intro i hi; simp at hi
+
+theorem cn_tightD_cons_iff (a : Acc) (tbl : Option Tbl) (v : Int) (c : Char) (s : List Char) :
+    TightD a tbl v (c :: s) ↔
+      walkValueD a tbl v (c :: s) ≠ 0 ∧ TightD a tbl (a.ent v ((nucIdx c).getD 0)) s := by
+  unfold TightD
+  constructor
+  · intro h
+    refine ⟨by simpa [walkEnd] using h 0 (by simp), fun i hi => ?_⟩
+    simpa [walkEnd] using h (i + 1) (by simpa using hi)
+  · rintro ⟨h0, ht⟩ i hi
+    cases i with
+    | zero => simpa [walkEnd] using h0
+    | succ i => simpa [walkEnd] using ht i (by simpa using hi)
+
+theorem cn_walkValueD_cons_branch {a : Acc} {tbl : Option Tbl} {v : Int} {c : Char} {s : List Char}
+    (h : a.outDeg v > 1) : walkValueD a tbl v (c :: s) =
+      arcDigit a tbl v ((nucIdx c).getD 0) +
+        a.outDeg v * walkValueD a tbl (a.ent v ((nucIdx c).getD 0)) s := by
+  simp [walkValueD, h]
+
+theorem cn_walkValueD_cons_forced {a : Acc} {tbl : Option Tbl} {v : Int} {c : Char} {s : List Char}
+    (h : ¬ a.outDeg v > 1) : walkValueD a tbl v (c :: s) =
+      walkValueD a tbl (a.ent v ((nucIdx c).getD 0)) s := by
+  simp [walkValueD, h]
+
+/-- the strand returned by the Nat-level encoder is a walk whose digit sequence has value `q`
+and none of whose non-empty suffixes has value 0 (for ANY table). -/
+theorem cn_encodeNat_spec (a : Acc) (tbl : Option Tbl) : ∀ (f : Nat) (v : Int) (q : Nat)
+    (s : List Char), encodeNat a tbl f v q = .ok s →
+      isWalk a v s = true ∧ walkValueD a tbl v s = q ∧ TightD a tbl v s := by
+  intro f
+  induction f with
+  | zero => intro v q s h; cases h
+  | succ f ih =>
+    intro v q s h
+    unfold encodeNat at h
+    by_cases h0 : q = 0
+    · simp only [h0, if_true] at h
+      cases h
+      exact ⟨rfl, h0.symm ▸ rfl, cn_tightD_nil a tbl v⟩
+    · simp only [h0, if_false] at h
+      by_cases h1 : a.outDeg v > 1
+      · simp only [h1, if_true] at h
+        obtain ⟨s', hs', rfl⟩ := cn_map_ok h
+        obtain ⟨w1, w2, w3⟩ := ih _ _ _ hs'
+        have hlt : q % a.outDeg v < a.outDeg v := Nat.mod_lt _ (by omega)
+        have hj := selectArc_mem a tbl v hlt
+        have hc := nucIdx_nucChar _ (live_lt_four a v hj)
+        have hjd : (nucIdx (nucChar (selectArc a tbl v (q % a.outDeg v)))).getD 0 =
+            selectArc a tbl v (q % a.outDeg v) := by rw [hc]; rfl
+        have hval : walkValueD a tbl v (nucChar (selectArc a tbl v (q % a.outDeg v)) :: s') = q := by
+          rw [cn_walkValueD_cons_branch h1, hjd, w2, arcDigit_selectArc a tbl v hlt]
+          exact Nat.mod_add_div q _
+        refine ⟨?_, hval, ?_⟩
+        · unfold isWalk
+          rw [cn_next_of_live hc hj]
+          exact w1
+        · rw [cn_tightD_cons_iff, hval, hjd]
+          exact ⟨h0, w3⟩
+      · simp only [h1, if_false] at h
+        by_cases h2 : a.outDeg v = 1
+        · simp only [h2, if_true] at h
+          obtain ⟨s', hs', rfl⟩ := cn_map_ok h
+          obtain ⟨w1, w2, w3⟩ := ih _ _ _ hs'
+          have hj : (a.live v).getD 0 0 ∈ a.live v := by
+            have := cn_live_eq_singleton (a := a) (v := v) h2
+            rw [this]; simp
+          have hc := nucIdx_nucChar _ (live_lt_four a v hj)
+          have hjd : (nucIdx (nucChar ((a.live v).getD 0 0))).getD 0 = (a.live v).getD 0 0 := by
+            rw [hc]; rfl
+          have hval : walkValueD a tbl v (nucChar ((a.live v).getD 0 0) :: s') = q := by
+            rw [cn_walkValueD_cons_forced h1, hjd, w2]
+          refine ⟨?_, hval, ?_⟩
+          · unfold isWalk
+            rw [cn_next_of_live hc hj]
+            exact w1
+          · rw [cn_tightD_cons_iff, hval, hjd]
+            exact ⟨h0, w3⟩
+        · simp [h2] at h
+
+/-! ## the decoder's digit vs the documented rank -/
+
+theorem walkValueD_eq_walkValue (a : Acc) (tbl : Option Tbl) (hd : ∀ v, DistinctKeys a tbl v) :
+    ∀ (s : List Char) (v : Int), isWalk a v s = true → walkValueD a tbl v s = walkValue a tbl v s := by
+  intro s
+  induction s with
+  | nil => intro v _; rfl
+  | cons c s ih =>
+    intro v hw
+    unfold isWalk at hw
+    cases hn : a.next v c with
+    | none => simp [hn] at hw
+    | some t =>
+      simp only [hn] at hw
+      obtain ⟨j, hc, hj, rfl⟩ := cn_next_some hn
+      have hjd : (nucIdx c).getD 0 = j := by simp [hc]
+      unfold walkValueD walkValue
+      simp only [hjd, ih _ hw, arcDigit_eq_arcRank a tbl v hj (hd v)]
+
+theorem cn_isWalk_suffix (a : Acc) : ∀ (s : List Char) (v : Int) (i : Nat), isWalk a v s = true →
+    isWalk a (walkEnd a v (s.take i)) (s.drop i) = true := by
+  intro s
+  induction s with
+  | nil => intro v i _; simp [walkEnd, isWalk]
+  | cons c s ih =>
+    intro v i hw
+    cases i with
+    | zero => simpa [walkEnd] using hw
+    | succ i =>
+      unfold isWalk at hw
+      cases hn : a.next v c with
+      | none => simp [hn] at hw
+      | some t =>
+        simp only [hn] at hw
+        obtain ⟨j, hc, hj, rfl⟩ := cn_next_some hn
+        have hjd : (nucIdx c).getD 0 = j := by simp [hc]
+        simpa [walkEnd, hjd] using ih _ i hw
+
+/-- under `DistinctKeys` the `arcDigit` form and the `arcRank` form of the scheme coincide. -/
+theorem cn_isEncoding_iff (a : Acc) (tbl : Option Tbl) (hd : ∀ v, DistinctKeys a tbl v) (v : Int)
+    (val : Nat) (s : List Char) :
+    IsEncoding a tbl v val s ↔
+      (isWalk a v s = true ∧ walkValueD a tbl v s = val ∧ TightD a tbl v s) := by
+  unfold IsEncoding TightD
+  constructor
+  · rintro ⟨hw, hv, ht⟩
+    refine ⟨hw, by rw [walkValueD_eq_walkValue a tbl hd s v hw]; exact hv, fun i hi => ?_⟩
+    rw [walkValueD_eq_walkValue a tbl hd _ _ (cn_isWalk_suffix a s v i hw)]
+    exact ht i hi
+  · rintro ⟨hw, hv, ht⟩
+    refine ⟨hw, by rw [← walkValueD_eq_walkValue a tbl hd s v hw]; exact hv, fun i hi => ?_⟩
+    rw [← walkValueD_eq_walkValue a tbl hd _ _ (cn_isWalk_suffix a s v i hw)]
+    exact ht i hi
+
+/-! ## uniqueness of the tight walk of a given value (any table) -/
+
+theorem cn_mixed_radix_unique {r d d' x x' : Nat} (hd : d < r) (hd' : d' < r)
+    (h : d + r * x = d' + r * x') : d = d' ∧ x = x' := by
+  have h1 : (d + r * x) % r = d := by rw [Nat.add_mul_mod_self_left]; exact Nat.mod_eq_of_lt hd
+  have h2 : (d' + r * x') % r = d' := by rw [Nat.add_mul_mod_self_left]; exact Nat.mod_eq_of_lt hd'
+  have h3 : (d + r * x) / r = x := by
+    rw [Nat.add_mul_div_left _ _ (by omega), Nat.div_eq_of_lt hd]; omega
+  have h4 : (d' + r * x') / r = x' := by
+    rw [Nat.add_mul_div_left _ _ (by omega), Nat.div_eq_of_lt hd']; omega
+  rw [h] at h1 h3
+  exact ⟨h1.symm.trans h2, h3.symm.trans h4⟩
+
+/-- a tight walk is determined by its start vertex and its `walkValueD` — for ANY table. -/
+theorem cn_tight_unique (a : Acc) (tbl : Option Tbl) : ∀ (s : List Char) (v : Int) (s' : List Char),
+    isWalk a v s = true → TightD a tbl v s → isWalk a v s' = true → TightD a tbl v s' →
+    walkValueD a tbl v s = walkValueD a tbl v s' → s = s' := by
+  intro s
+  induction s with
+  | nil =>
+    intro v s' _ _ hw' ht' hv
+    cases s' with
+    | nil => rfl
+    | cons c' t' =>
+      have := ((cn_tightD_cons_iff a tbl v c' t').1 ht').1
+      exact absurd hv.symm this
+  | cons c t ih =>
+    intro v s' hw ht hw' ht' hv
+    obtain ⟨hne, htt⟩ := (cn_tightD_cons_iff a tbl v c t).1 ht
+    cases s' with
+    | nil => exact absurd hv hne
+    | cons c' t' =>
+      obtain ⟨_, htt'⟩ := (cn_tightD_cons_iff a tbl v c' t').1 ht'
+      unfold isWalk at hw hw'
+      cases hn : a.next v c with
+      | none => simp [hn] at hw
+      | some u =>
+      cases hn' : a.next v c' with
+      | none => simp [hn'] at hw'
+      | some u' =>
+        simp only [hn] at hw
+        simp only [hn'] at hw'
+        obtain ⟨j, hc, hj, rfl⟩ := cn_next_some hn
+        obtain ⟨j', hc', hj', rfl⟩ := cn_next_some hn'
+        have hjd : (nucIdx c).getD 0 = j := by simp [hc]
+        have hjd' : (nucIdx c').getD 0 = j' := by simp [hc']
+        rw [hjd] at htt
+        rw [hjd'] at htt'
+        have key : j = j' ∧ walkValueD a tbl (a.ent v j) t = walkValueD a tbl (a.ent v j') t' := by
+          by_cases h1 : a.outDeg v > 1
+          · rw [cn_walkValueD_cons_branch h1, cn_walkValueD_cons_branch h1, hjd, hjd'] at hv
+            obtain ⟨e1, e2⟩ := cn_mixed_radix_unique (arcDigit_lt a tbl v hj) (arcDigit_lt a tbl v hj') hv
+            exact ⟨arcDigit_inj a tbl v hj hj' e1, e2⟩
+          · rw [cn_walkValueD_cons_forced h1, cn_walkValueD_cons_forced h1, hjd, hjd'] at hv
+            have hpos : 0 < (a.live v).length := List.length_pos_of_mem hj
+            have hsing := cn_live_eq_singleton (a := a) (v := v) (by unfold Acc.outDeg at h1; omega)
+            rw [hsing] at hj hj'
+            exact ⟨(List.mem_singleton.1 hj).trans (List.mem_singleton.1 hj').symm, hv⟩
+        obtain ⟨ej, ev⟩ := key
+        subst ej
+        have ec : c = c' := (nucChar_nucIdx hc).symm.trans (nucChar_nucIdx hc')
+        subst ec
+        rw [ih _ _ hw htt hw' htt' ev]
+
+/-! ## `encode` in normal mode -/
+
+theorem cn_encode_normal_eq (a : Acc) (tbl : Option Tbl) (v : Int) (bits : List Nat) (vtLen fuel : Nat)
+    (hb : IsBits bits) :
+    encode a tbl v bits false vtLen fuel =
+      (encodeNat a tbl fuel v (bitToNumberInt bits)).bind fun s =>
+        if vtLen > 0 then (setVt s vtLen).bind fun c => .ok (s, some c) else .ok (s, none) := by
+  obtain ⟨hc, hv⟩ := C16_bits_paths_agree bits hb
+  unfold encode
+  simp only [Bool.false_eq_true, if_false]
+  rw [encodeNormalLoop_eq_encodeNat a tbl fuel v _ hc, hv]
+  rfl
+
+theorem cn_encode_normal_ok {a : Acc} {tbl : Option Tbl} {v : Int} {bits : List Nat} {vtLen fuel : Nat}
+    {s : List Char} {c : Option (List Char)} (hb : IsBits bits)
+    (h : encode a tbl v bits false vtLen fuel = .ok (s, c)) :
+    encodeNat a tbl fuel v (bitToNumberInt bits) = .ok s ∧ vtMatches s c = .ok true := by
+  rw [cn_encode_normal_eq a tbl v bits vtLen fuel hb] at h
+  cases he : encodeNat a tbl fuel v (bitToNumberInt bits) with
+  | error e => rw [he] at h; cases h
+  | ok s0 =>
+    rw [he] at h
+    simp only [Except.bind] at h
+    by_cases hv : vtLen > 0
+    · simp only [hv, if_true] at h
+      cases hs : setVt s0 vtLen with
+      | error e => rw [hs] at h; cases h
+      | ok c0 =>
+        rw [hs] at h
+        cases h
+        refine ⟨rfl, ?_⟩
+        have hl := cn_setVt_length (by omega) hs
+        unfold vtMatches
+        simp only [hl, hs, Except.map, beq_self_eq_true]
+    · simp only [hv, if_false] at h
+      cases h
+      exact ⟨rfl, rfl⟩
+
+/-! ## totality: the fuel `L * |V| + 1` suffices on `GoodFrom` graphs -/
+
+theorem cn_encodeNat_mono (a : Acc) (tbl : Option Tbl) : ∀ (f : Nat) (v : Int) (q : Nat)
+    (s : List Char) (d : Nat), encodeNat a tbl f v q = .ok s → encodeNat a tbl (f + d) v q = .ok s := by
+  intro f
+  induction f with
+  | zero => intro v q s d h; cases h
+  | succ f ih =>
+    intro v q s d h
+    have hf : f + 1 + d = (f + d) + 1 := by omega
+    rw [hf]
+    unfold encodeNat at h ⊢
+    by_cases h0 : q = 0
+    · simpa [h0] using h
+    · simp only [h0, if_false] at h ⊢
+      by_cases h1 : a.outDeg v > 1
+      · simp only [h1, if_true] at h ⊢
+        obtain ⟨s', hs', rfl⟩ := cn_map_ok h
+        rw [ih _ _ _ d hs']
+        rfl
+      · simp only [h1, if_false] at h ⊢
+        by_cases h2 : a.outDeg v = 1
+        · simp only [h2, if_true] at h ⊢
+          obtain ⟨s', hs', rfl⟩ := cn_map_ok h
+          rw [ih _ _ _ d hs']
+          rfl
+        · simp [h2] at h
+
+theorem cn_reach_snoc {a : Acc} {v u : Int} {j : Nat} (h : a.Reach v u) (hj : j ∈ a.live u) :
+    a.Reach v (a.ent u j) := by
+  induction h with
+  | refl v => exact .step v j _ hj (.refl _)
+  | step v j' w hj' _ ih => exact .step v j' _ hj' (ih hj)
+
+theorem cn_reach_trans {a : Acc} {v u w : Int} (h : a.Reach v u) (h' : a.Reach u w) :
+    a.Reach v w := by
+  induction h with
+  | refl v => exact h'
+  | step v j' w' hj' _ ih => exact .step v j' _ hj' (ih h')
+
+/-- the successor along the first live arc (the only one at a one-arc vertex). -/
+def cnForced (a : Acc) (u : Int) : Int := a.ent u ((a.live u).getD 0 0)
+
+/-- following forced arcs from `u`, the first branching vertex is met after exactly `n` steps. -/
+def cnBranchIn (a : Acc) : Nat → Int → Prop
+  | 0, u => a.outDeg u ≥ 2
+  | n + 1, u => a.outDeg u = 1 ∧ cnBranchIn a n (cnForced a u)
+
+theorem cn_head_mem_live {a : Acc} {u : Int} (h : a.outDeg u ≥ 1) : (a.live u).getD 0 0 ∈ a.live u := by
+  unfold Acc.outDeg at h
+  match hl : a.live u, h with
+  | x :: r, _ => simp
+
+theorem cn_branchIn_of_reach {a : Acc} {u w : Int} (h : a.Reach u w) (hw : a.outDeg w ≥ 2) :
+    ∃ n, cnBranchIn a n u := by
+  induction h with
+  | refl v => exact ⟨0, hw⟩
+  | step v j w' hj _ ih =>
+    by_cases hb : a.outDeg v ≥ 2
+    · exact ⟨0, hb⟩
+    · have hpos : 0 < (a.live v).length := List.length_pos_of_mem hj
+      have h1 : a.outDeg v = 1 := by unfold Acc.outDeg at hb ⊢; omega
+      have hsing := cn_live_eq_singleton (a := a) (v := v) h1
+      have hjeq : j = (a.live v).getD 0 0 := by
+        rw [hsing] at hj; exact List.mem_singleton.1 hj
+      obtain ⟨n, hn⟩ := ih hw
+      refine ⟨n + 1, h1, ?_⟩
+      unfold cnForced
+      rw [← hjeq]
+      exact hn
+
+theorem cn_branchIn_unique {a : Acc} : ∀ {n m : Nat} {u : Int}, cnBranchIn a n u → cnBranchIn a m u →
+    n = m := by
+  intro n
+  induction n with
+  | zero =>
+    intro m u h h'
+    cases m with
+    | zero => rfl
+    | succ m => have h1 : a.outDeg u ≥ 2 := h; have h2 := h'.1; omega
+  | succ n ih =>
+    intro m u h h'
+    cases m with
+    | zero => have h1 : a.outDeg u ≥ 2 := h'; have h2 := h.1; omega
+    | succ m => rw [ih h.2 h'.2]
+
+theorem cn_branchIn_iterate {a : Acc} : ∀ (i : Nat) {n : Nat} {u : Int}, cnBranchIn a n u → i ≤ n →
+    cnBranchIn a (n - i) (Nat.iterate (cnForced a) i u) := by
+  intro i
+  induction i with
+  | zero => intro n u h _; exact h
+  | succ i ih =>
+    intro n u h hi
+    cases n with
+    | zero => omega
+    | succ n =>
+      rw [Nat.succ_sub_succ]
+      exact ih h.2 (by omega)
+
+theorem cn_reach_iterate {a : Acc} {v : Int} (hdeg : ∀ w, a.Reach v w → a.outDeg w ≥ 1) :
+    ∀ (i : Nat) (u : Int), a.Reach v u → a.Reach v (Nat.iterate (cnForced a) i u) := by
+  intro i
+  induction i with
+  | zero => intro u h; exact h
+  | succ i ih =>
+    intro u h
+    exact ih _ (cn_reach_snoc h (cn_head_mem_live (hdeg u h)))
+
+theorem cn_pigeon (N : Nat) (g : Nat → Nat) (hg : ∀ i, i ≤ N → g i < N) :
+    ∃ i j, i < j ∧ j ≤ N ∧ g i = g j := by
+  obtain ⟨x, y, hxy, he⟩ := Fintype.exists_ne_map_eq_of_card_lt
+    (fun i : Fin (N + 1) => (⟨g i.val, hg i.val (by omega)⟩ : Fin N)) (by simp)
+  have he' : g x.val = g y.val := by simpa using congrArg Fin.val he
+  rcases Nat.lt_or_gt_of_ne (fun h => hxy (Fin.ext h)) with h | h
+  · exact ⟨x, y, h, by omega, he'⟩
+  · exact ⟨y, x, h, by omega, he'.symm⟩
+
+/-- the forced path from a reachable vertex meets a branching vertex within `|V| - 1` steps. -/
+theorem cn_branchIn_lt {a : Acc} {v u : Int}
+    (hgood : ∀ w, a.Reach v w → (0 ≤ w ∧ w < (a.size : Int)) ∧ a.outDeg w ≥ 1)
+    (hu : a.Reach v u) {n : Nat} (hn : cnBranchIn a n u) : n < a.size := by
+  apply Classical.byContradiction
+  intro hge
+  have hreach : ∀ i, a.Reach v (Nat.iterate (cnForced a) i u) :=
+    fun i => cn_reach_iterate (fun w hw => (hgood w hw).2) i u hu
+  obtain ⟨i, j, hij, hj, he⟩ := cn_pigeon a.size (fun i => (Nat.iterate (cnForced a) i u).toNat)
+    (fun i _ => by have := (hgood _ (hreach i)).1; omega)
+  have hi0 := (hgood _ (hreach i)).1
+  have hj0 := (hgood _ (hreach j)).1
+  have heq : Nat.iterate (cnForced a) i u = Nat.iterate (cnForced a) j u := by
+    omega
+  have b1 := cn_branchIn_iterate i hn (by omega)
+  have b2 := cn_branchIn_iterate j hn (by omega)
+  rw [heq] at b1
+  have := cn_branchIn_unique b1 b2
+  omega
+
+theorem cn_encodeNat_ok_branchIn (a : Acc) (tbl : Option Tbl) (F : Nat) (v : Int) (B : Nat)
+    (ih : ∀ u q, a.Reach v u → q < B → ∃ s, encodeNat a tbl F u q = .ok s) :
+    ∀ (n : Nat) (u : Int) (q : Nat), cnBranchIn a n u → a.Reach v u → q ≠ 0 → q < 2 * B →
+      ∃ s, encodeNat a tbl (n + 1 + F) u q = .ok s := by
+  intro n
+  induction n with
+  | zero =>
+    intro u q hb hu h0 hq
+    have hb' : a.outDeg u ≥ 2 := hb
+    have hf : 0 + 1 + F = F + 1 := by omega
+    rw [hf]
+    unfold encodeNat
+    have h1 : a.outDeg u > 1 := by omega
+    simp only [h0, if_false, h1, if_true]
+    have hlt : q % a.outDeg u < a.outDeg u := Nat.mod_lt _ (by omega)
+    have hj := selectArc_mem a tbl u hlt
+    have hq' : q / a.outDeg u < B := by
+      apply Nat.div_lt_of_lt_mul
+      have : 2 * B ≤ a.outDeg u * B := Nat.mul_le_mul_right B hb'
+      omega
+    obtain ⟨s, hs⟩ := ih _ _ (cn_reach_snoc hu hj) hq'
+    rw [hs]
+    exact ⟨_, rfl⟩
+  | succ n ihn =>
+    intro u q hb hu h0 hq
+    obtain ⟨h1, hb'⟩ := hb
+    have hf : n + 1 + 1 + F = (n + 1 + F) + 1 := by omega
+    rw [hf]
+    unfold encodeNat
+    simp only [h0, if_false, h1, if_true]
+    have hj := cn_head_mem_live (a := a) (u := u) (by omega)
+    obtain ⟨s, hs⟩ := ihn _ q hb' (cn_reach_snoc hu hj) h0 hq
+    unfold cnForced at hs
+    rw [hs]
+    exact ⟨_, rfl⟩
+
+/-- on a `GoodFrom` graph the Nat-level encoder returns within `L * |V| + 1` steps for every value
+below `2 ^ L`, from every reachable vertex. -/
+theorem cn_encodeNat_total (a : Acc) (tbl : Option Tbl) (v : Int) (hg : a.GoodFrom v) :
+    ∀ (L : Nat) (u : Int) (q : Nat), a.Reach v u → q < 2 ^ L →
+      ∃ s, encodeNat a tbl (L * a.size + 1) u q = .ok s := by
+  intro L
+  induction L with
+  | zero =>
+    intro u q _ hq
+    have h0 : q = 0 := by simpa using hq
+    subst h0
+    exact ⟨[], by simp [encodeNat]⟩
+  | succ L ih =>
+    intro u q hu hq
+    by_cases h0 : q = 0
+    · subst h0
+      exact ⟨[], by simp [encodeNat]⟩
+    · obtain ⟨w, hr, hb⟩ := (hg u hu).2.2
+      obtain ⟨n, hn⟩ := cn_branchIn_of_reach hr hb
+      have hlt : n < a.size :=
+        cn_branchIn_lt (fun w hw => ⟨(hg w hw).1, (hg w hw).2.1⟩) hu hn
+      obtain ⟨s, hs⟩ := cn_encodeNat_ok_branchIn a tbl (L * a.size + 1) v (2 ^ L) ih n u q hn hu h0
+        (by rw [Nat.pow_succ] at hq; omega)
+      have hfuel : (L + 1) * a.size + 1 = (n + 1 + (L * a.size + 1)) + (a.size - (n + 1)) := by
+        rw [Nat.succ_mul]; omega
+      rw [hfuel]
+      exact ⟨s, cn_encodeNat_mono a tbl _ _ _ _ _ hs⟩
+
+theorem cn_bitToNumberInt_lt (bits : List Nat) (hb : IsBits bits) :
+    bitToNumberInt bits < 2 ^ bits.length := by
+  have key : ∀ (l : List Nat) (n0 : Nat), (∀ b ∈ l, b < 2) →
+      l.foldl (fun n b => n * 2 + b) n0 + 1 ≤ (n0 + 1) * 2 ^ l.length := by
+    intro l
+    induction l with
+    | nil => intro n0 _; simp
+    | cons b t ih =>
+      intro n0 hl
+      have hb2 : b < 2 := hl b (by simp)
+      have h1 := ih (n0 * 2 + b) (fun x hx => hl x (by simp [hx]))
+      have h2 : (n0 * 2 + b + 1) * 2 ^ t.length ≤ ((n0 + 1) * 2) * 2 ^ t.length :=
+        Nat.mul_le_mul_right _ (by omega)
+      rw [List.foldl_cons, List.length_cons, Nat.pow_succ, Nat.mul_comm (2 ^ t.length) 2,
+        ← Nat.mul_assoc]
+      omega
+  have := key bits 0 hb
+  unfold bitToNumberInt
+  omega
+
+theorem cn_isWalk_isDna (a : Acc) : ∀ (s : List Char) (v : Int), isWalk a v s = true →
+    ∀ c ∈ s, (nucIdx c).isSome = true := by
+  intro s
+  induction s with
+  | nil => intro v _ c hc; simp at hc
+  | cons c0 s ih =>
+    intro v hw c hc
+    unfold isWalk at hw
+    cases hn : a.next v c0 with
+    | none => simp [hn] at hw
+    | some t =>
+      simp only [hn] at hw
+      obtain ⟨j, hj, _, _⟩ := cn_next_some hn
+      rcases List.mem_cons.1 hc with rfl | hc
+      · simp [hj]
+      · exact ih _ hw c hc
+
+/-- normal-mode `encode` returns on `GoodFrom` graphs with the fuel the driver passes. -/
+theorem cn_encode_total_normal (a : Acc) (tbl : Option Tbl) (v : Int) (bits : List Nat) (vtLen : Nat)
+    (hb : IsBits bits) (hg : a.GoodFrom v) :
+    ∃ s c, encode a tbl v bits false vtLen (encodeFuel a bits) = .ok (s, c) := by
+  obtain ⟨s, hs⟩ := cn_encodeNat_total a tbl v hg bits.length v _ (.refl v)
+    (cn_bitToNumberInt_lt bits hb)
+  rw [cn_encode_normal_eq a tbl v bits vtLen _ hb]
+  unfold encodeFuel
+  rw [hs]
+  simp only [Except.bind]
+  by_cases hv : vtLen > 0
+  · obtain ⟨c, hc⟩ := cn_setVt_ok_of_isDna vtLen
+      (cn_isWalk_isDna a s v (cn_encodeNat_spec a tbl _ _ _ _ hs).1)
+    simp only [hv, if_true, hc]
+    exact ⟨s, some c, rfl⟩
+  · simp only [hv, if_false]
+    exact ⟨s, none, rfl⟩
+
 end Dsw
